@@ -51,3 +51,75 @@ Print Assumptions C07_src_neg_mod_correct.
 Example C07_src_runs : g_uint_add_mod 2 [2 ^ 64 - 2; 2 ^ 64 - 1] [2 ^ 64 - 3; 2 ^ 64 - 1] [2 ^ 64 - 1; 2 ^ 64 - 1] = [2 ^ 64 - 4; 2 ^ 64 - 1] /\
   g_uint_neg_mod 2 [0; 0] [7; 0] = [0; 0] /\ g_uint_sub_mod 1 [3] [5] [7] = [5].
 Proof. vm_compute. repeat split. Qed.
+
+
+(** ---- double_mod, mac_by_limb, mul_rem and the special-modulus multiplication (Src/GenMulMod.v, proofs in Src/GenMulModP.v) ---- *)
+From CB Require Import Model.Mul Model.Div Src.GenDiv Src.GenShift Src.GenMul Src.GenInt Src.GenDivLimb Src.GenMulMod Src.GenMulModP.
+From CB Require Import Proofs.DivP Proofs.ModArithP.
+
+(** Uint::double_mod (overflowing_shl1, trial subtraction, masked re-addition) is the model, hence canonical and exact *)
+Theorem C07_src_double_mod : forall n a p, length a = n -> length p = n -> usz n -> wf a -> wf p ->
+  g_uint_double_mod n a p = double_mod a p.
+Proof. exact g_uint_double_mod_eq. Qed.
+Print Assumptions C07_src_double_mod.
+Theorem C07_src_double_mod_correct : forall n a p, length a = n -> length p = n -> usz n -> wf a -> wf p -> eval a < eval p ->
+  eval (g_uint_double_mod n a p) = (2 * eval a) mod eval p /\ wf (g_uint_double_mod n a p) /\ length (g_uint_double_mod n a p) = n.
+Proof. exact g_uint_double_mod_correct. Qed.
+Print Assumptions C07_src_double_mod_correct.
+
+(** mac_by_limb (in-place loop over a copy of `a`, carry threaded) is the model recursion *)
+Theorem C07_src_mac_by_limb : forall n a b c carry, length a = n -> length b = n -> usz n -> wf a -> wf b -> is_word c -> is_word carry ->
+  g_mac_by_limb n a b c carry = mac_by_limb a b c carry.
+Proof. exact g_mac_by_limb_eq. Qed.
+Print Assumptions C07_src_mac_by_limb.
+
+(** mul_rem: Reciprocal::new(d), mulhilo, Uint::<2>::from_words([lo, hi]) (the limb count of the callees is the literal
+    length of the array), rem_limb_with_reciprocal *)
+Theorem C07_src_mul_rem : forall a b d, is_word a -> is_word b -> 0 < d < B ->
+  g_mul_rem a b d = (let '(hi, lo) := mulhilo a b in rem_limb_with_reciprocal [lo; hi] (recip_new d)).
+Proof. exact g_mul_rem_eq. Qed.
+Print Assumptions C07_src_mul_rem.
+
+Theorem C07_src_from_wide_word : forall n x, (2 <= n)%nat -> 0 <= x < 2 ^ 128 -> g_uint_from_wide_word n x = from_wide_word_n n x.
+Proof. exact g_uint_from_wide_word_eq. Qed.
+Print Assumptions C07_src_from_wide_word.
+
+(** Uint::mul_mod_special: `Uint::split_mul` is outside the translated subset (Karatsuba dispatch, macro-generated) and is a
+    PARAMETER [xmul] of the generated function, as [mulf] is a parameter of the model.  For every xmul whose result has the
+    shape of a (lo, hi) pair of n limbs the source text denotes the model (the model returns None where `new_unwrap`
+    panics: c = 0 at one limb) *)
+Theorem C07_src_mul_mod_special : forall (xmul : nat -> list Z -> list Z -> list Z * list Z) dbg n a b c v,
+  length a = n -> length b = n -> (1 <= n)%nat -> usz n -> wf a -> wf b -> is_word c ->
+  ((2 <= n)%nat -> xmul_shape xmul n a b) ->
+  mul_mod_special dbg (xmul n) a b c = Some v -> g_uint_mul_mod_special xmul n a b c = v.
+Proof. exact g_uint_mul_mod_special_eq. Qed.
+Print Assumptions C07_src_mul_mod_special.
+
+(** hence, for EVERY multiplication routine that returns the double-width product, the SOURCE reduction (HAC 14.47 at n >= 2
+    limbs, mul_rem through the source's own Reciprocal::new at one limb) returns a * b mod (2^(64 n) - c): every width, every
+    1 <= c < 2^64, no hypothesis on the reciprocal *)
+Theorem C07_src_mul_mod_special_exact : forall (xmul : nat -> list Z -> list Z -> list Z * list Z) n a b c,
+  length a = n -> length b = n -> (1 <= n)%nat -> usz n -> wf a -> wf b -> 1 <= c < B -> 0 < psp n c ->
+  split_mul_ok (xmul n) a b ->
+  let r := g_uint_mul_mod_special xmul n a b c in
+  eval r = (eval a * eval b) mod psp n c /\ wf r /\ length r = n.
+Proof. exact g_uint_mul_mod_special_exact. Qed.
+Print Assumptions C07_src_mul_mod_special_exact.
+
+(** one such routine: the GENERATED schoolbook multiplication on zeroed buffers (what split_mul runs through uint_mul_limbs at
+    every width without a Karatsuba instance) *)
+Theorem C07_src_schoolbook_is_split_mul : forall n a b, length a = n -> length b = n -> 2 * Z.of_nat n < 2 ^ 64 -> wf a -> wf b ->
+  split_mul_ok (xmul_schoolbook n) a b.
+Proof. exact xmul_schoolbook_ok. Qed.
+Print Assumptions C07_src_schoolbook_is_split_mul.
+
+(** non-vacuity: the generated functions run on multi-limb inputs (3 limbs with c = MAX, the witness of the wrapping variant:
+    the `(carry + 1) * c` product needs the wide word; one limb through mul_rem; the doubling with the carry out of the top limb) *)
+Example C07_src_mulmod_runs :
+  g_uint_mul_mod_special xmul_schoolbook 3 [0; 2 ^ 64 - 2; 2 ^ 64 - 1] [0; 2 ^ 64 - 2; 2 ^ 64 - 1] (2 ^ 64 - 1)
+    = to_limbs 3 (((2 ^ 192 - 2 ^ 65) * (2 ^ 192 - 2 ^ 65)) mod (2 ^ 192 - (2 ^ 64 - 1))) /\
+  g_uint_mul_mod_special xmul_schoolbook 1 [2 ^ 64 - 60] [2 ^ 64 - 61] 59 = [((2 ^ 64 - 60) * (2 ^ 64 - 61)) mod (2 ^ 64 - 59)] /\
+  g_uint_double_mod 2 [2 ^ 64 - 3; 2 ^ 64 - 1] [2 ^ 64 - 1; 2 ^ 64 - 1] = [2 ^ 64 - 5; 2 ^ 64 - 1] /\
+  g_mac_by_limb 3 [1; 2; 3] [2 ^ 64 - 1; 2 ^ 64 - 1; 2 ^ 64 - 1] (2 ^ 64 - 1) 7 = ([9; 1; 3], 2 ^ 64 - 1) /\
+  g_mul_rem (2 ^ 64 - 1) (2 ^ 64 - 1) 7 = ((2 ^ 64 - 1) * (2 ^ 64 - 1)) mod 7.
+Proof. vm_compute. repeat split. Qed.
